@@ -185,7 +185,7 @@ func c10(c *Ctx) {
 					continue
 				}
 				for _, in := range b.Instrs {
-					if ret, ok := in.(*ssa.Return); ok {
+					if ret, ok := an.AsReturn(in); ok {
 						if k, ok := an.RetVal(ret, 0).(*ssa.Const); ok {
 							res[t] += k.Value.String()
 						}
@@ -216,35 +216,7 @@ func c10(c *Ctx) {
 		}
 		r.Check(ok, "R10.C", "seqno:even-increment", c.pos(st.Pos()), "m.seqNo advances by a positive even constant (the content-related bit is added at serialisation)")
 	}
-	if gm := c.fn("R10.C", load.UtilsPkg, "", "GenerateMessageId"); gm != nil {
-		// (seconds << 32) | (nanoseconds & -4): evaluate the SSA for a few clock values
-		var unix ssa.Value
-		for _, cs := range an.Calls(gm) {
-			if cs.Name == "(time.Time).UnixNano" {
-				unix = cs.Value()
-			}
-		}
-		var bad []string
-		for _, t := range []int64{1_600_000_000_123_456_789, 1_700_000_000_000_000_003, 999_999_999, 1_000_000_001} {
-			for _, b := range gm.Blocks {
-				for _, in := range b.Instrs {
-					if ret, ok := in.(*ssa.Return); ok {
-						v, okv := an.EvalInt(an.RetVal(ret, 0), func(x ssa.Value) (int64, bool) {
-							if x == unix {
-								return t, true
-							}
-							return 0, false
-						})
-						want := (t/1_000_000_000)<<32 | (t % 1_000_000_000 &^ 3)
-						if !okv || v != want || v%4 != 0 {
-							bad = append(bad, sprintf("clock %d → %d, want %d", t, v, want))
-						}
-					}
-				}
-			}
-		}
-		r.Check(unix != nil && len(bad) == 0, "R10.C", "msg-id:clock-derived-multiple-of-4", c.pos(gm.Pos()), "unix seconds << 32 | nanoseconds with the two low bits cleared: "+strings.Join(bad, "; "))
-	}
+	c.msgIDFormula("R10.C")
 
 	// ---- R10.A ----------------------------------------------------------------------------------
 	c.everyMessageDispatched("R10.A")
@@ -269,7 +241,7 @@ func c10(c *Ctx) {
 			var nilRets []ssa.Instruction
 			for _, b := range pr.Blocks {
 				for _, in := range b.Instrs {
-					if ret, ok := in.(*ssa.Return); ok && len(ret.Results) == 1 && an.IsNilConst(an.RetVal(ret, 0)) {
+					if ret, ok := an.AsReturn(in); ok && len(ret.Results) == 1 && an.IsNilConst(an.RetVal(ret, 0)) {
 						nilRets = append(nilRets, ret)
 					}
 				}
@@ -347,7 +319,7 @@ func (c *Ctx) everyMessageDispatched(rule string) {
 			var bad []string
 			n := 0
 			for _, b := range rm.Blocks {
-				ret, ok := b.Instrs[len(b.Instrs)-1].(*ssa.Return)
+				ret, ok := an.AsReturn(b.Instrs[len(b.Instrs)-1])
 				if !ok || len(ret.Results) != 1 || !an.IsNilConst(an.RetVal(ret, 0)) || !an.InstrDominates(read, ret) {
 					continue
 				}
@@ -385,7 +357,7 @@ func (c *Ctx) everyMessageDispatched(rule string) {
 		var bad []string
 		n := 0
 		for _, b := range pr.Blocks {
-			ret, ok := b.Instrs[len(b.Instrs)-1].(*ssa.Return)
+			ret, ok := an.AsReturn(b.Instrs[len(b.Instrs)-1])
 			if !ok || len(ret.Results) != 1 || !an.IsNilConst(an.RetVal(ret, 0)) {
 				continue
 			}
@@ -395,5 +367,41 @@ func (c *Ctx) everyMessageDispatched(rule string) {
 			}
 		}
 		r.Check(len(bad) == 0 && n > 0, rule, "dispatch:every-success-exit-after-the-switch", c.pos(pr.Pos()), sprintf("%d successful exit(s) of processResponse; %s", n, strings.Join(bad, "; ")))
+	}
+}
+
+// msgIDFormula: GenerateMessageId returns unix seconds << 32 | nanoseconds with the two low bits cleared (evaluated
+// for four clock values): a multiple of four with a resolution of 4 ns, so that two requests written one after the
+// other under the send lock never share an id - the response table is keyed by it.
+func (c *Ctx) msgIDFormula(rule string) {
+	r := c.R
+	if gm := c.fn(rule, load.UtilsPkg, "", "GenerateMessageId"); gm != nil {
+		// (seconds << 32) | (nanoseconds & -4): evaluate the SSA for a few clock values
+		var unix ssa.Value
+		for _, cs := range an.Calls(gm) {
+			if cs.Name == "(time.Time).UnixNano" {
+				unix = cs.Value()
+			}
+		}
+		var bad []string
+		for _, t := range []int64{1_600_000_000_123_456_789, 1_700_000_000_000_000_003, 999_999_999, 1_000_000_001} {
+			for _, b := range gm.Blocks {
+				for _, in := range b.Instrs {
+					if ret, ok := an.AsReturn(in); ok {
+						v, okv := an.EvalInt(an.RetVal(ret, 0), func(x ssa.Value) (int64, bool) {
+							if x == unix {
+								return t, true
+							}
+							return 0, false
+						})
+						want := (t/1_000_000_000)<<32 | (t % 1_000_000_000 &^ 3)
+						if !okv || v != want || v%4 != 0 {
+							bad = append(bad, sprintf("clock %d → %d, want %d", t, v, want))
+						}
+					}
+				}
+			}
+		}
+		r.Check(unix != nil && len(bad) == 0, rule, "msg-id:clock-derived-multiple-of-4", c.pos(gm.Pos()), "unix seconds << 32 | nanoseconds with the two low bits cleared: "+strings.Join(bad, "; "))
 	}
 }
